@@ -475,6 +475,11 @@ impl<'a> Run<'a> {
 
         let res = repo.read()?;
 
+        #[cfg(feature = "verif-hooks")]
+        crate::verif::point("rrdp.before_record_update", || {
+            rpki_notify.to_string()
+        });
+
         // Insert into updated map.
         self.updated.write().insert(rpki_notify.clone(), repo);
 
